@@ -1,4 +1,5 @@
 import AtreeModel.Array.Tree
+import AtreeModel.Gen.Trans
 import AtreeModel.Gen.TransSlabs
 import AtreeProofs.Trans.Basic
 /-
@@ -43,8 +44,27 @@ def toStorableMax (mx : Nat) (addr : Nat) (v : Elem) (c : Ctx) : Elem × Ctx :=
 theorem toStorableMax_eq (T addr : Nat) (v : Elem) (c : Ctx) :
     toStorableMax (maxInlineArr T) addr v c = toStorable T addr v c := rfl
 
+/-- `ArrayMetaDataSlab.childSlabIndexInfo` as a parameter of the slab engine: the translation of the STATELESS engine
+    (`Gen/Trans.lean`, regenerated on every run, `TransEq.ArrayMetaDataSlab_childSlabIndexInfo_eq_model`) applied to the
+    fields of the generated record; `childID = childHeader.slabID` (the statement that engine leaves out) is read off
+    `childrenHeaders`; the error is `NewIndexOutOfBoundsError`.  As there, an index past the end of `childrenHeaders`
+    (a Go panic) is not modelled. -/
+def childInfoOf {ε : Type} (ioob : Option ε) (a : TransSl.ArrayMetaDataSlab Unit) (index : UInt64) :
+    Int × UInt64 × SlabID × Option ε :=
+  match Trans.ArrayMetaDataSlab_childSlabIndexInfo a.header.count a.childrenCountSum
+      (a.childrenHeaders.map (·.count)) index with
+  | none => (0, 0, SlabID.undef, ioob)
+  | some (k, adj) => (k, adj, (a.childrenHeaders.getD k.toNat TransSl.ArraySlabHeader.zero).slabID, none)
+
 /-- the parameters of the generated functions, from the model -/
 def envA (T : Nat) (look : SlabID → Option GSlab) : SEnv where
+  ArrayMetaDataSlab_childSlabIndexInfo := childInfoOf (some .indexOutOfBounds)
+  Array_notifyParentIfNeeded a := (none, a)
+  Array_setCallbackWithChild a _ _ _ := a
+  Array_incrementIndexFrom a _ := (none, a)
+  Array_decrementIndexFrom a _ := (none, a)
+  NewArrayElementCannotExceedMaxElementCountError _ := some .maxElementCount
+  Storable_StoredValue e c := (some e, none, c)
   ArrayPopIterationFunc_call acc e := acc ++ [e]
   NewIndexOutOfBoundsError _ _ _ := some .indexOutOfBounds
   NewSlabSplitErrorf := some .slabSplit
